@@ -16,8 +16,11 @@ LEVEL_TEXT = ('Kernel-checked theorems (Props/C20.v): the Gallina transcription 
               'strides, per-diagonal boundary zeroing by slices, dropping of out-of-range diagonals, summation of equal '
               'offsets, DIA semantics) equals the specification "row p holds the stencil entries of the neighbours that '
               'exist" on every grid with 1..3 points per dimension in 1-3 D (1-wide and non-square included) for generic '
-              'stencils (bounded, vm_compute); the FE and FD 2-D diffusion stencils sum to zero over any commutative ring '
-              'for every anisotropy and rotation.  Both the model and the specification are evaluated inside Coq on every '
+              'stencils (bounded, vm_compute); the FE and FD 2-D diffusion stencils, written operation by operation as the '
+              'library computes them from eps, cos(theta), sin(theta), are exact on all quadratic polynomials (0 on 1, x, y; '
+              '-2 K11, -2 K22, -2 K12 on x^2, y^2, xy with K = Q diag(1, eps) Q^T), for every anisotropy and rotation, over any '
+              'field with 2 and 3 invertible -- they discretise -div K grad u -- and these Gallina stencils evaluated at '
+              'PrimFloat must equal diffusion_stencil_2d bit for bit.  Both the stencil_grid model and the specification are evaluated inside Coq on every '
               'generated case and must equal what the working-tree stencil_grid returns (all grid shapes <= 5 per '
               'dimension in 1-3 D, random odd integer stencils with zeros, every format and dtype); oracles decide Poisson '
               '(symmetric M-matrix, tensor-product spectrum), diffusion row sums, and the Q1 elasticity generator on all '
@@ -97,17 +100,43 @@ def run(ctx):
                 want = np.sort(np.array([sum(t) for t in itertools.product(*axes)]))
                 if _nn(np.abs(ev - want).max()) > 1e-10:
                     ctx.fail('poisson/spectrum', 'max deviation from the tensor-product spectrum %.3g' % np.abs(ev - want).max(), case)
-    # ---------------- diffusion stencils
-    for eps in (1.0, 0.1, 1e-3, 7.5):
-        for th in (0.0, 0.3, np.pi / 4, 1.9, -0.7):
-            for typ in ('FE', 'FD'):
-                st = diffusion_stencil_2d(epsilon=eps, theta=th, type=typ)
-                ctx.case(('diffusion', eps, th, typ), True)
-                ctx.count('diffusion')
-                if abs(st.sum()) > 1e-12 * np.abs(st).sum():
-                    ctx.fail('diffusion_stencil_2d/sum-not-zero', 'sum %.3g' % st.sum(), dict(eps=eps, theta=th, type=typ))
-                if _nn(np.abs(st - st[::-1, ::-1]).max()) > 0:
-                    ctx.fail('diffusion_stencil_2d/not-centrosymmetric', '', dict(eps=eps, theta=th, type=typ))
+    # ---------------- diffusion stencils: bit-exact against the Gallina stencils, and the consistency the theorems state
+    dcases, dmeta = [], []
+    pairs = [(eps, th) for eps in (1.0, 0.1, 1e-3, 7.5) for th in (0.0, 0.3, np.pi / 4, 1.9, -0.7)]
+    pairs += [(rng.choice([0.01, 0.5, 2.0, 100.0]), rng.uniform(-3.2, 3.2)) for _ in range(10 if not ctx.thorough else 200)]
+    for eps, th in pairs:
+        for ti, typ in enumerate(('FE', 'FD')):
+            dcase = dict(eps=eps, theta=th, type=typ)
+            ctx.mark(dcase)
+            st = np.asarray(diffusion_stencil_2d(epsilon=eps, theta=th, type=typ), dtype=float)
+            ctx.case(('diffusion', eps, th, typ), True)
+            ctx.count('diffusion')
+            dcases.append('(%d%%nat, (%s, %s, %s), %s)' % (ti, cq.fl(float(eps)), cq.fl(float(np.cos(float(th)))),
+                                                        cq.fl(float(np.sin(float(th)))), cq.lst([cq.fll(r) for r in st])))
+            dmeta.append(dcase)
+            if abs(st.sum()) > 1e-12 * np.abs(st).sum():
+                ctx.fail('diffusion_stencil_2d/sum-not-zero', 'sum %.3g' % st.sum(), dcase)
+            if _nn(np.abs(st - st[::-1, ::-1]).max()) > 0:
+                ctx.fail('diffusion_stencil_2d/not-centrosymmetric', '', dcase)
+            # exactness on quadratics: -div K grad u with K = Q diag(1, eps) Q^T (first array index = x)
+            c_, s_ = np.cos(th), np.sin(th)
+            K11, K22, K12 = c_ * c_ + eps * s_ * s_, s_ * s_ + eps * c_ * c_, (1 - eps) * c_ * s_
+            xs = np.array([-1.0, 0.0, 1.0])
+            X, Y = np.meshgrid(xs, xs, indexing='ij')
+            for nm, u, want in (('x', X, 0.0), ('y', Y, 0.0), ('x^2', X * X, -2 * K11), ('y^2', Y * Y, -2 * K22), ('xy', X * Y, -2 * K12)):
+                got = float((st * u).sum())
+                if not abs(got - want) <= 1e-12 * (1 + abs(eps)):
+                    ctx.fail('diffusion_stencil_2d/%s/not-consistent' % typ,
+                             'stencil applied to %s gives %r, -div K grad u gives %r' % (nm, got, want), dcase)
+                    break
+    dh = ('From Coq Require Import ZArith List PrimFloat.\nImport ListNotations.\n'
+          'Require Import PV.Base.Ops PV.Model.DiffusionRun.\n')
+    bad, errs = cq.run_cases('c20d', dh, 'diff_case', 'diff_chk', dcases)
+    for e in errs:
+        ctx.disagree('C20 diffusion model evaluation', None, e, None)
+    for i in bad[:10]:
+        ctx.disagree('diffusion_stencil_2d == Gallina stencil (bit-exact)', dmeta[i], 'model differs', None)
+    ctx.corr_relations.append('diffusion_stencil_2d(eps, theta, FE|FD) == Diffusion.fe_stencil / fd_stencil at PrimFloat (bit-exact)')
     # ---------------- Q1 elasticity on all small grid shapes
     for X in range(1, 5):
         for Y in range(1, 5):
